@@ -54,8 +54,19 @@ StepNth(e) ==
      IF Has(e, "exc") THEN Rej("nth_weekday_of_month_raised")
      ELSE Check(e.res = NthDowOfMonth(first, len, e.occ, e.dow), "nth_weekday_of_month")
 
+\* (week-year, week, weekday) -> date for regular rules: the week must exist in that week-year and the day must be a day of the calendar
+StepMake(e) ==
+  /\ prev' = NoPrev
+  /\ LET s0 == RegularStart(e.ys_wy, e.min_days, e.first_dow)
+         s1 == RegularStart(e.ys_next, e.min_days, e.first_dow)
+         day == s0 + (e.w - 1) * 7 + ((e.dow - e.first_dow + 7) % 7)
+     IN  IF e.w >= 1 /\ e.w <= (s1 - s0) \div 7 /\ day >= e.min_day /\ day <= e.max_day
+         THEN /\ Check(~Has(e, "exc"), "existing_week_and_day_must_not_raise")
+              /\ (Has(e, "res") => Check(e.res = day /\ e.res_cal = e.cal, "week_year_week_and_day_give_that_date"))
+         ELSE Check(Has(e, "exc"), "week_or_day_that_does_not_exist_must_raise")
+
 Init == l = 1 /\ prev = NoPrev
 Next == /\ l <= Len(Events) /\ l' = l + 1
-        /\ LET e == Events[l] IN CASE e.op = "wk" -> StepWk(e) [] e.op = "nav" -> StepNav(e) [] e.op = "nth" -> StepNth(e)
+        /\ LET e == Events[l] IN CASE e.op = "wk" -> StepWk(e) [] e.op = "nav" -> StepNav(e) [] e.op = "nth" -> StepNth(e) [] e.op = "wk_make" -> StepMake(e)
 Spec == Init /\ [][Next]_<<l, prev>>
 =============================================================================
